@@ -20,7 +20,9 @@ CMPOPS = ['>', '>=', '<', '<=', '==', '!=']
 # identifier shapes the regex tokeniser could get wrong
 NAME_POOL = ['C', 'Y', 'H_h', 'x1', 'X_if', 'is_open', 'Pin', 'not_X', 'origin', 't', 'np', 'exp', 'log', 'max',
              'min', 'xlog', 'log10', 'alpha_1', 'e', 'in_', 'T', 'G', 'YD', 'a', 'b', 'k9', 'N__d', 'If', 'Else',
-             'forx', 'andy', 'D_or', 'abs', 'lambda_', 'Z', 'W', 'V', 'nonlocal_x', 'x_', 'expX', 'logs', 'maxim']
+             'forx', 'andy', 'D_or', 'abs', 'lambda_', 'Z', 'W', 'V', 'nonlocal_x', 'x_', 'expX', 'logs', 'maxim',
+             # Python *soft* keywords are ordinary identifiers, hence ordinary variable names
+             'type', 'match', 'case']
 UNDERSCORE_POOL = ['_u', '_X', '__v']
 
 
